@@ -3,6 +3,7 @@ import FxVerif.Proofs.C05Ext
 import FxVerif.Proofs.C05Prompt
 import FxVerif.Proofs.C05Sol
 import FxVerif.Props.C01
+import FxVerif.Proofs.C06Vote
 /-!
 # C06 — outgoing value is released only once the external chain can no longer run it
 
@@ -518,5 +519,105 @@ example : ∃ ops : List Op, let s := run (init 1 [((0, 0), 100)] {}) ops
   refine ⟨[.observe 1000 .other, .send 0 "0x0000000000000000000000000000000000000001" 0 5 2,
            .reqBatch 0 1 0 "0x0000000000000000000000000000000000000002"], ?_⟩
   decide
+
+/-! ## round 5: the observed height is the height a QUORUM reported (votes of several oracles, `Model/C06Vote.lean`) -/
+
+section votes
+open FxVerif.Model.C06Vote FxVerif.Proofs.C06Vote
+
+/-- what the votes of different oracles must agree on to be summed, as read from the source now: `Attest` looks the
+attestation up under (event nonce, ClaimHash) of the voter's own claim; the `ClaimHash` of the three claim types driven
+here covers the reported external height and the fields that identify the batch / the bridge-call result; `TryAttestation`
+stores the height of the claim it is handed, which is the current voter's -/
+theorem votes_summed_only_when_they_agree :
+    FxVerif.Gen.C06.attestLookupArgs = "claim.GetEventNonce(), claim.ClaimHash()" ∧
+    FxVerif.Gen.C06.observedHeightFromVoter = true ∧
+    (∀ ty ∈ ["MsgSendToExternalClaim", "MsgBridgeCallResultClaim", "MsgBridgeTokenClaim"],
+      covers FxVerif.Gen.C06.claimHashFields ty "BlockHeight" = true ∧
+      covers FxVerif.Gen.C06.claimHashFields ty "EventNonce" = true) ∧
+    covers FxVerif.Gen.C06.claimHashFields "MsgSendToExternalClaim" "TokenContract" = true ∧
+    covers FxVerif.Gen.C06.claimHashFields "MsgSendToExternalClaim" "BatchNonce" = true ∧
+    covers FxVerif.Gen.C06.claimHashFields "MsgBridgeCallResultClaim" "Nonce" = true ∧
+    covers FxVerif.Gen.C06.claimHashFields "MsgBridgeCallResultClaim" "Success" = true := by decide
+
+/-- with that coverage two claims share an attestation only if they report the same height and the same event -/
+theorem claimKey_injective (h h' : Nat) (ev ev' : Ev)
+    (hk : claimKey FxVerif.Gen.C06.claimHashFields h ev = claimKey FxVerif.Gen.C06.claimHashFields h' ev') :
+    h = h' ∧ ev = ev' := by
+  have c1 : covers FxVerif.Gen.C06.claimHashFields "MsgSendToExternalClaim" "BlockHeight" = true := by decide
+  have c2 : covers FxVerif.Gen.C06.claimHashFields "MsgBridgeCallResultClaim" "BlockHeight" = true := by decide
+  have c3 : covers FxVerif.Gen.C06.claimHashFields "MsgBridgeTokenClaim" "BlockHeight" = true := by decide
+  have c4 : covers FxVerif.Gen.C06.claimHashFields "MsgSendToExternalClaim" "TokenContract" = true := by decide
+  have c5 : covers FxVerif.Gen.C06.claimHashFields "MsgSendToExternalClaim" "BatchNonce" = true := by decide
+  have c6 : covers FxVerif.Gen.C06.claimHashFields "MsgBridgeCallResultClaim" "Nonce" = true := by decide
+  have c7 : covers FxVerif.Gen.C06.claimHashFields "MsgBridgeCallResultClaim" "Success" = true := by decide
+  cases ev <;> cases ev' <;> simp [claimKey, evType, FxVerif.Model.C06Vote.pick, c1, c2, c3, c4, c5, c6, c7] at hk ⊢
+  · exact ⟨hk.1, hk.2.1, hk.2.2⟩
+  · rename_i c ok c' ok'
+    refine ⟨hk.1, hk.2.1, ?_⟩
+    cases ok <;> cases ok' <;> simp at hk ⊢
+  · exact hk
+
+/-- a voted history IS a history of the C05 / C06 model: the state reached through any sequence of user operations and
+single votes of the oracles equals the state the base model reaches on the trace — the user operations plus one `observe`
+per quorum-completing vote.  Every theorem above (and every C05 theorem) about `run` therefore holds of voted histories. -/
+theorem voted_history_is_a_history (b : State) (powers : List Nat) (total : Nat) (ops : List VOp) :
+    (vrun (vinit b powers total) ops).base = run b (trace (vinit b powers total) ops) :=
+  vrun_base _ ops _
+
+/-- **the observed height was reported by a quorum.**  In every state reachable through user operations and votes (any
+number of oracles, any powers, any recorded total, any order, oracles reporting whatever heights and events they like),
+every observation that has taken effect — the height `e.height` was stored as the observed external height and ran the
+event handler and both timeout clean-ups — is backed by its voters: each of them submitted a claim for that event nonce with
+exactly that height and exactly that event, and their combined power is at least the required power
+(`threshold · total / 100`, regenerated).  Depends on the claim hash covering the height: with a hash that drops it the
+statement is false (see the `example` below). -/
+theorem observed_height_has_quorum (b : State) (powers : List Nat) (total : Nat) (ops : List VOp) :
+    let s := vrun (vinit b powers total) ops
+    ∀ e ∈ s.obsLog,
+      (∀ o ∈ e.voters, (⟨o, e.nonce, e.height, e.ev⟩ : Vote) ∈ s.voteLog) ∧
+      required total ≤ sumPower (fun o => powers.getD o 0) e.voters := by
+  intro s e he
+  have hv : FxVerif.Gen.C06.observedHeightFromVoter = true := by decide
+  have I := vinv_run FxVerif.Gen.C06.claimHashFields hv ops _ (vinv_init _ b powers total)
+  have hp := vrun_powers FxVerif.Gen.C06.claimHashFields ops (vinit b powers total)
+  obtain ⟨hb, hr⟩ := I.obs e he
+  refine ⟨?_, ?_⟩
+  · intro o ho
+    obtain ⟨v, hvm, h1, h2, h3⟩ := hb o ho
+    obtain ⟨h4, h5⟩ := claimKey_injective _ _ _ _ h3
+    have : v = ⟨o, e.nonce, e.height, e.ev⟩ := by
+      cases v; simp only at h1 h2 h4 h5; subst h1 h2 h4 h5; rfl
+    exact this ▸ hvm
+  · have hlt : ∀ a r, below a r = decide (a < r) := by
+      intro a r
+      have : FxVerif.Gen.C01.tallyCmp = .lt := by decide
+      simp [below, this]
+    have := reached_sum _ _ hlt e.voters 0 hr
+    have hpw : power (vrunWith FxVerif.Gen.C06.claimHashFields (vinit b powers total) ops) = fun o => powers.getD o 0 := by
+      funext o
+      show (vrunWith _ _ ops).powers.getD o 0 = _
+      rw [hp.1]; rfl
+    have htot : (vrunWith FxVerif.Gen.C06.claimHashFields (vinit b powers total) ops).total = total := hp.2
+    rw [hpw, htot] at this
+    omega
+
+/-- non-vacuity: three oracles (400 / 300 / 300 of 1000), one of them reports a far higher height; the event is observed
+with the height the other two reported, once the second of them has voted -/
+example : (vrun (vinit (init 1 [((0, 0), 100)] {}) [400, 300, 300] 1000)
+      [.vote 0 1 100 .other, .vote 1 1 99999 .other, .vote 2 1 100 .other]).obsLog = [⟨1, 100, .other, [0, 2]⟩] := by decide
+
+/-- the statement depends on the hash covering the height: with the coverage table of a `ClaimHash` that drops
+`BlockHeight`, the same votes are summed into one attestation, the event is observed with the height only the second
+voter (300 of the required 660) reported, and that voter's height is what the clean-ups compare with -/
+example :
+    (vrunWith tableWithoutHeight (vinit (init 1 [((0, 0), 100)] {}) [400, 300, 300] 1000)
+      [.vote 0 1 100 .other, .vote 1 1 99999 .other, .vote 2 1 100 .other]).obsLog = [⟨1, 99999, .other, [0, 1]⟩] ∧
+    (vrunWith tableWithoutHeight (vinit (init 1 [((0, 0), 100)] {}) [400, 300, 300] 1000)
+      [.vote 0 1 100 .other, .vote 1 1 99999 .other, .vote 2 1 100 .other]).base.obsExt = 99999 ∧
+    (⟨0, 1, 99999, .other⟩ : Vote) ∉ (vrunWith tableWithoutHeight (vinit (init 1 [((0, 0), 100)] {}) [400, 300, 300] 1000)
+      [.vote 0 1 100 .other, .vote 1 1 99999 .other, .vote 2 1 100 .other]).voteLog := by decide
+
+end votes
 
 end FxVerif.Props.C06
